@@ -600,9 +600,7 @@ func (r *simRun) clientEvent(ci int, data []byte) {
 	// it visited before the failing one dialled connections too, and the connection numbering of everything that
 	// follows depends on that order. So: claimedAt[b] = the first use of the new connection b by an accepted request
 	// (position in newReqs, then position among that request's enqueues: a request dials in the order it enqueues);
-	// b was dialled no later than every connection created after it, i.e. by
-	// U(b) = min over b' >= b of claimedAt[b']. If its own first use is that early, the claimer dialled it (or an earlier
-	// rejected request did, which numbers the same); otherwise a rejected request before U(b) did.
+	// b was dialled no later than every connection created after it.
 	const never = 1 << 40
 	const perReq = 1 << 20
 	nNew := len(r.backends) - nb0
@@ -629,15 +627,7 @@ func (r *simRun) clientEvent(ci int, data []byte) {
 			gi++
 		}
 	}
-	upper := make([]int, nNew+1)
-	upper[nNew] = never
-	for k := nNew - 1; k >= 0; k-- {
-		upper[k] = upper[k+1]
-		if claimedAt[k] < upper[k] {
-			upper[k] = claimedAt[k]
-		}
-	}
-	// rejected requests: the slots they can have dialled for, filled in dial order
+	// rejected requests: the slots they can have dialled for (collected youngest connection first, reversed below)
 	type rejInfo struct {
 		used map[int]bool
 		vs   []string
@@ -663,14 +653,20 @@ func (r *simRun) clientEvent(ci int, data []byte) {
 		}
 		return 0, false
 	}
-	lower := 0
-	for k := 0; k < nNew; k++ {
-		if claimedAt[k] != never && claimedAt[k] <= upper[k] {
-			lower = claimedAt[k] / perReq // dialled by the accepted request that uses it first
+	// From the youngest new connection to the oldest: it was dialled no later than the one created after it (`ub`).
+	// If its first use by an accepted request is that early, that request dialled it (the latest possibility, which
+	// leaves the most room for the older ones); otherwise the latest rejected request up to `ub` that can have been
+	// routed there did - and every older connection then has to be accounted for at or before that request too.
+	ub := never
+	for k := nNew - 1; k >= 0; k-- {
+		if claimedAt[k] != never && claimedAt[k] <= ub {
+			ub = claimedAt[k]
 			continue
 		}
-		// dialled by a rejected request at a position in [lower, upper[k]): the first one that can have been routed there
-		for pos := lower; pos < len(newReqs) && pos*perReq < upper[k]; pos++ {
+		for pos := len(newReqs) - 1; pos >= 0; pos-- {
+			if pos*perReq > ub {
+				continue
+			}
 			q := newReqs[pos]
 			if q.local {
 				continue
@@ -687,9 +683,14 @@ func (r *simRun) clientEvent(ci int, data []byte) {
 			if s, can := canDial(q, ri.used, r.backends[nb0+k].peer.addr); can {
 				ri.vs = append(ri.vs, fmt.Sprintf("%d@%s", s, hx([]byte(r.backends[nb0+k].peer.addr))))
 				ri.used[s] = true
-				lower = pos
+				ub = pos * perReq
 				break
 			}
+		}
+	}
+	for _, ri := range rej {
+		for a, b := 0, len(ri.vs)-1; a < b; a, b = a+1, b-1 {
+			ri.vs[a], ri.vs[b] = ri.vs[b], ri.vs[a]
 		}
 	}
 	gi := 0
